@@ -1,0 +1,39 @@
+//go:build verif
+
+package parser
+
+// Contracts for gvc (the /verif condition generator). Comment-only: nothing here is compiled
+// into the library; the file exists only under the build tag "verif".
+
+/*@
+// ---- label / title assembly loops: the buffer being appended to is nil or was allocated here (C12) ----
+func (*linkParser).parseReferenceLink
+  loop 0 inv fresh(maybeReference) && 0 <= i
+func parseLinkTitle
+  loop 0 inv (title == nil || fresh(title)) && 0 <= i
+func parseLinkReferenceDefinition
+  loop 0 inv (label == nil || fresh(label)) && 0 <= i
+  loop 1 inv (title == nil || fresh(title)) && 0 <= i
+
+// ---- ids: the per-document set of used element ids (C15) ----
+// Generate returns a non-empty id that was not in the set, and adds exactly that id to the set.
+func (*ids).Generate
+  requires s.values != nil
+  ensures [nonempty] len(result) > 0
+  ensures [unused] !old(mapHasKey(s.values, now(strkey(result))))
+  ensures [recorded] mapHasKey(s.values, strkey(result))
+  ensures [kept] forall k int :: old(mapHasKey(s.values, k)) ==> mapHasKey(s.values, k)
+  ensures [onlyone] forall k int :: mapHasKey(s.values, k) ==> (old(mapHasKey(s.values, k)) || k == strkey(result))
+  ensures [fresh] fresh(result)
+  modifies mapcontents(s.values)
+  loop 0 inv 0 <= i && fresh(result) && s.values == old(s.values)
+  loop 0 inv forall k int :: mapHasKey(s.values, k) <==> old(mapHasKey(s.values, k))
+  loop 1 inv len(result) > 0 && s.values == old(s.values)
+  loop 1 inv forall k int :: mapHasKey(s.values, k) <==> old(mapHasKey(s.values, k))
+
+func (*ids).Put
+  requires s.values != nil
+  ensures mapHasKey(s.values, strkey(value))
+  ensures forall k int :: old(mapHasKey(s.values, k)) ==> mapHasKey(s.values, k)
+  modifies mapcontents(s.values)
+@*/
